@@ -165,6 +165,7 @@ def cell_list(ctx, rule):
     # ---------------------------------------------------------------- R3 floor
     axes_seen = []
     divisors = set()
+    divisor_nodes = []
     if fill is not None:
         for kv in key_vars:
             defs = [s for s in fill.body if isinstance(s, ast.Assign)
@@ -186,6 +187,7 @@ def cell_list(ctx, rule):
                         and quot.left.attr in ('x', 'y', 'z'):
                     ok, axis = True, quot.left.attr
                     divisors.add(norm(quot.right))
+                    divisor_nodes.append(quot.right)
                 else:
                     why = 'index is not floor(coordinate / edge): ' + norm(val)
             ctx.ob(rule('R3'), 'cell-index:' + kv, ok,
@@ -239,6 +241,16 @@ def cell_list(ctx, rule):
     # the cell edge
     edge_defs = [s for s in walk_no_nested(fn) if isinstance(s, ast.Assign)
                  and norm(s.targets[0]) in divisors]
+    if not edge_defs and len(divisors) == 1 and divisor_nodes:
+        # the edge is written where the coordinate is divided by it
+        class _Edge:
+            pass
+        e_ = _Edge()
+        e_.value = divisor_nodes[0]
+        edge_defs = [e_]
+        edge_anchor = divisor_nodes[0]
+    elif len(edge_defs) == 1:
+        edge_anchor = edge_defs[0]
     if len(edge_defs) != 1:
         raise AnalysisError('C11.R2: cell edge has no single definition')
     edge = ConstEval(env).ev(edge_defs[0].value)
@@ -247,7 +259,7 @@ def cell_list(ctx, rule):
     ctx.ob(rule('R2'), 'cell-edge>=longest-rule', edge * edge >= max(msd, max_rule_sq),
            'cell edge %.4f >= longest bonding distance %.4f, so bonded atoms are never '
            'more than one cell apart' % (edge, max(msd, max_rule_sq) ** 0.5),
-           mod, edge_defs[0])
+           mod, edge_anchor)
     ctx.note('cell_edge', edge)
     ctx.note('rule_distances_squared', used_sq)
     return dict(mod=mod, fn=fn, env=env, dist_tbl=dist_tbl, chk=chk,
